@@ -218,6 +218,7 @@ def check(ctx, floors=True, only_literals=False):
         if "body" not in b or q.derived(b):
             continue
         for n in q.field_reads(b["body"], "type_ir::TypeIR", "insert_codec_attributes"):
-            tir.add(cshort(b["path"]))
+            for o in q.owners(ctx, b["path"], GEN):          # a private helper reads on behalf of the functions that call it
+                tir.add(cshort(o))
     ctx.expect(tir <= {"scale_typegen::to_tokens"}, "C09.8", "readers/TypeIR.insert_codec_attributes", "", "the IR's codec flag is read only by TypeIR::to_tokens",
                "TypeIR.insert_codec_attributes read in %s" % sorted(tir))
